@@ -485,6 +485,31 @@ def x11(ctx, rid):
     ctx.ok(rid, 'scan', '', '%d increment / decrement pairs on shared atomic counters in client-cancellable bodies, %d split by a suspension point' % (n, bad), nontrivial=False, queries=max(1, n))
 
 
+def x12(ctx, rid):
+    """an abandoned init can be repeated: Storage::init* moves the observer from Created to Running only after its last suspension
+    point.  Launched earlier, a future dropped at any await of the initialisation (read_dir, opening or scanning a blob, an index
+    dump ..) leaves a running worker on an uninitialised storage - and, together with a `second launch is an error` check, a
+    storage object that can never be initialised again"""
+    prog = ctx.prog
+    n = 0
+    for f in prog.fns.values():
+        if f.file != 'src/storage/core.rs' or not f.is_coroutine:
+            continue
+        launches = [c for c in f.calls if c.bb in f.reachable() and (c.name == 'launch_observer' or any(t.endswith('::launch_observer') or t.endswith('observer::Observer::<K>::run') for t in prog.resolve(c)))]
+        if not launches:
+            continue
+        n += 1
+        key = 'observer-launched-after-last-await|%s' % prog.fns[f.id].root
+        ry = core.real_yields(prog, f)
+        late = [y for c in launches for y in ry if y in f.reach_from(f.after(c.bb))]
+        if late:
+            ctx.bad(rid, key, launches[0].where(), 'the observer is launched before a suspension point of the initialisation (%s): an init future dropped there leaves a running worker behind, and the storage object cannot be initialised again' % f.where(late[0]))
+        else:
+            ctx.ok(rid, key, launches[0].where(), 'no suspension point after the launch')
+    if n < 1:
+        raise core.AnchorLost('coroutines that launch the observer: %d' % n)
+
+
 RULES = [
     Rule('C14.X1', 'reservation of a file offset and the OS write consuming it lie in non-coroutine bodies run by a blocking runner', x1, 4),
     Rule('C14.X2', 'no suspension point between the completed record append and its index push', x2, 2),
@@ -496,5 +521,6 @@ RULES = [
     Rule('C14.X9', 'every WritableDataCreator builds its result from the offset reserved inside the non-cancellable append closure (C08.D8 instances)', x9, 1),
     Rule('C14.X10', 'no two fields of a value held under one exclusive guard are written on the two sides of a suspension point in a client-cancellable body', x10, 1),
     Rule('C14.X11', 'no shared atomic counter is raised before and lowered after a suspension point by plain statements of a client-cancellable body', x11, 1),
+    Rule('C14.X12', 'Storage::init launches the observer only after its last suspension point', x12, 1),
     Rule('C14.X4', 'no RAII guard whose Drop undoes a counter reservation is live across a suspension point of a client-cancellable future', x4, 1),
 ]
